@@ -93,3 +93,19 @@ def dop853Dense : DenseSpec :=
           [D51_q, z, z, z, z, D56_q, D57_q, D58_q, D59_q, D510_q, D511_q, D512_q, D513_q, D514_q, D515_q, D516_q],
           [D61_q, z, z, z, z, D66_q, D67_q, D68_q, D69_q, D610_q, D611_q, D612_q, D613_q, D614_q, D615_q, D616_q],
           [D71_q, z, z, z, z, D76_q, D77_q, D78_q, D79_q, D710_q, D711_q, D712_q, D713_q, D714_q, D715_q, D716_q]] }
+
+/-! ### the time arguments of DOP853's three extra dense stages
+
+  The order conditions above take the node of a stage to be the row sum of its `A` row (`Φ_i(τ) = Σ_j a_ij`).  The code
+  passes `x + C14·h`, `x + C15·h`, `x + C16·h` as the time argument (`Proofs/DenseEqs853.lean`), so for a right-hand side that
+  depends on `t` the three constants have to *be* those row sums.  (The twelve main nodes are `rowsum_dop853`, property C02.) -/
+def QQ.sumRow (r : List QQ) : QQ := r.foldl QQ.add (0, 1)
+/-- `|Σ_j a_ij − c_i| ≤ 1/tolInv` for the pairs `(row, node)` -/
+def nodesMatchRows (rows : List (List QQ)) (nodes : List QQ) (tolInv : Nat) : Bool :=
+  (List.zipWith (fun (row : List QQ) (c : QQ) =>
+      let s := QQ.sumRow row
+      decide ((s.1 * c.2 - c.1 * s.2).natAbs * tolInv ≤ s.2 * c.2)) rows nodes).all id
+    && rows.length == nodes.length
+open Gen.Dop853 in
+def dop853ExtraNodesOK (tolInv : Nat) : Bool :=
+  nodesMatchRows (dop853Dense.A.drop 13) [C14_q, C15_q, C16_q] tolInv
